@@ -1188,4 +1188,392 @@ example : (match Plot.addAll [] exArrival with
     | .ok p => (seriesOf p exA labelOK).map (fun s => s.pts.map (·.1))
     | _ => none) = some [0, 5] := by decide +kernel
 
+/-! ## the outcome of `Plot.data` and of the command as a function of threshold and series lengths -/
+
+/-- "a longer series with a threshold of 1 or 2 is rejected", for every threshold below 3 that is
+not 0 (negative ones included) and any points: the decision depends on `count` and `threshold`
+only. -/
+theorem downsample_rejects_below_3 (count threshold : Int) (pts : List Point)
+    (hlong : count > threshold) (h0 : threshold ≠ 0) (h3 : threshold < 3) :
+    downsample count threshold pts = .error eThreshold := by
+  unfold downsample
+  have h1 : ¬ (threshold ≥ count ∨ threshold = 0) := by omega
+  rw [if_neg h1, if_pos h3]
+
+/-- `Downsample` refuses a series of `len` points at threshold `th` -/
+def rejects (th : Int) (len : Nat) : Bool := decide (th ≠ 0) && decide (th < (len : Int)) && decide (th < 3)
+
+/-- the rows before the final sort when no series is sampled: every point of every series -/
+def allRows (store : Store) (n : Nat) : Nat → List TimeSeries → List (List F64)
+  | _, [] => []
+  | i, s :: rest => ((seriesPoints store s).take s.pts.length).map (mkRow n i) ++ allRows store n (i+1) rest
+
+theorem aux_rowsFrom_below_3 (store : Store) (th : Int) (h3 : th < 3) (n : Nat) :
+    ∀ (ss : List TimeSeries) (i : Nat),
+      rowsFrom store th n i ss =
+        if ss.any (fun s => rejects th s.pts.length) then .error eThreshold else .ok (allRows store n i ss) := by
+  intro ss
+  induction ss with
+  | nil => intro i; rfl
+  | cons s rest ih =>
+    intro i
+    unfold rowsFrom
+    by_cases hr : rejects th s.pts.length = true
+    · have hr' := hr
+      unfold rejects at hr'
+      simp only [Bool.and_eq_true, decide_eq_true_eq] at hr'
+      rw [downsample_rejects_below_3 _ th _ (by omega) hr'.1.1 h3]
+      simp [hr]
+    · have hid : th ≥ (s.pts.length : Int) ∨ th = 0 := by
+        unfold rejects at hr
+        simp only [Bool.and_eq_true, decide_eq_true_eq, not_and] at hr
+        by_cases h0 : th = 0
+        · exact Or.inr h0
+        · left
+          by_cases hlt : th < (s.pts.length : Int)
+          · exact absurd h3 (hr ⟨h0, hlt⟩)
+          · omega
+      have hds : downsample (s.pts.length : Int) th (seriesPoints store s)
+          = .ok ((seriesPoints store s).take s.pts.length) := by
+        unfold downsample
+        rw [if_pos hid, aux_fetch _ _ (Int.natCast_nonneg _)]
+        simp
+      rw [hds, ih (i+1)]
+      have hf : (rejects th s.pts.length) = false := by simpa using hr
+      simp only [List.any_cons, hf, Bool.false_or]
+      by_cases hany : (rest.any fun s => rejects th s.pts.length) = true
+      · simp only [hany, ↓reduceIte]
+      · simp only [hany, Bool.false_eq_true, ↓reduceIte]
+        rfl
+
+/--
+**The outcome of `Plot.data` for a threshold below 3, both directions, any plot state, any store**
+("a longer series with a threshold of 1 or 2 is rejected with an error rather than mis-sampled";
+"at or below the threshold, or with threshold 0, it is unchanged" — thresholds 1 and 2 included):
+the plot is rejected iff SOME series — whichever, first, last or in between in `attack+label`
+order — is longer than a non-zero threshold; otherwise `data` succeeds with every point of every
+series.  The error of any one series is the outcome of the whole call.
+-/
+theorem data_outcome_below_3 (store : Store) (p : Plot) (th : Int) (h3 : th < 3) :
+    Plot.data store p th =
+      if (allSeries p).any (fun s => rejects th s.pts.length) then .error eThreshold
+      else .ok (sortBy rowLt (allRows store (allSeries p).length 0 (allSeries p)), dataLabels (allSeries p)) := by
+  unfold Plot.data
+  simp only []
+  rw [aux_rowsFrom_below_3 store th h3]
+  by_cases hany : ((allSeries p).any fun s => rejects th s.pts.length) = true
+  · simp only [hany, ↓reduceIte]
+  · simp only [hany, Bool.false_eq_true, ↓reduceIte]
+
+/-- for thresholds ≥ 3 (or 0) `Plot.data` never returns an error (store inside its limits,
+series of at most 2^50 points): no series is ever rejected -/
+theorem data_ok_from_3 (store : Store) (hl : Lossless store) (p : Plot) (th : Int) (hth : th = 0 ∨ 3 ≤ th)
+    (hdom : ∀ s ∈ allSeries p, msDomain (s.pts.map (·.1)) = true ∧ (s.pts.length : Int) ≤ 1125899906842624) :
+    ∃ rows labels, Plot.data store p th = .ok (rows, labels) := by
+  obtain ⟨sels, _, hrows⟩ := aux_rows_selected store hl th hth (allSeries p).length (allSeries p) 0 hdom
+  unfold Plot.data
+  simp only [hrows]
+  exact ⟨_, _, rfl⟩
+
+/-- the plot built from any arrival order of complete attacks, and exactly which series it holds -/
+theorem aux_plot_and_series (canon : Bytes → List Result) (rs : List Result)
+    (hc : ∀ a, Canon a (canon a))
+    (hperm : ∀ a, (rs.filter (fun r => r.attack == a)).Perm (canon a)) :
+    ∃ p, Plot.addAll [] rs = .ok p ∧
+      (∀ a l, seriesOf p a l =
+        if (∃ r ∈ canon a, r.label = l) then some (specSeries a (t0 (canon a)) (canon a) l) else none) ∧
+      (∀ s, s ∈ allSeries p ↔
+        ∃ a l, (∃ r ∈ canon a, r.label = l) ∧ s = specSeries a (t0 (canon a)) (canon a) l) := by
+  obtain ⟨p, hp, hser⟩ := arrival_order_irrelevant canon rs hc hperm
+  obtain ⟨hmem, _⟩ := series_shown_are_the_label_series rs p hp
+  refine ⟨p, hp, hser, ?_⟩
+  intro s
+  rw [hmem s]
+  constructor
+  · rintro ⟨a, l, h⟩
+    rw [hser a l] at h
+    by_cases hex : ∃ r ∈ canon a, r.label = l
+    · rw [if_pos hex] at h; cases h; exact ⟨a, l, hex, rfl⟩
+    · rw [if_neg hex] at h; cases h
+  · rintro ⟨a, l, hex, hs⟩
+    exact ⟨a, l, by rw [hser a l, if_pos hex, hs]⟩
+
+/-- number of results of attack `a` with label `l` -/
+def seriesLen (canon : Bytes → List Result) (a l : Bytes) : Nat :=
+  ((canon a).filter (fun r => r.label == l)).length
+
+open Vegeta.Model.RoundRobin in
+/--
+**The outcome of the `plot` command as a total function of the threshold and the per-attack
+OK/ERROR counts** (well-formed files holding every attack's records completely, in any split and
+order; store inside its limits; at most 2^50 results per attack):
+
+* it fails with "lttb: min threshold is 3" **iff** the threshold is non-zero and below 3 and SOME
+  existing (attack, label) series has more results than the threshold (for a negative threshold:
+  any series at all) — so `--threshold 1` or `2` over
+  result sets whose series all have at most that many points is NOT an error (they are plotted
+  unchanged, see `data_outcome_below_3`), and one long series anywhere makes the whole command fail;
+* in every other case it succeeds.
+-/
+theorem plot_command_outcome (canon : Bytes → List Result) (inputs : List (List Result)) (fuel : Nat)
+    (hn : 0 < inputs.length) (hfuel : inputs.flatten.length < fuel)
+    (hw : 0 + inputs.length * fuel < two64)
+    (hc : ∀ a, Canon a (canon a))
+    (hunion : ∀ a, (inputs.flatten.filter (fun r => r.attack == a)).Perm (canon a))
+    (store : Store) (hl : Lossless store)
+    (hdom : ∀ a l, msDomain ((specPts (t0 (canon a)) (canon a) l).map (·.1)) = true)
+    (hsize : ∀ a, ((canon a).length : Int) ≤ 1125899906842624)
+    (th : Int) :
+    (plotCommand store th fuel (ofInputs inputs) = .error eThreshold ↔
+      (th ≠ 0 ∧ th < 3 ∧ ∃ a l, 0 < seriesLen canon a l ∧ th < (seriesLen canon a l : Int))) ∧
+    (¬ (th ≠ 0 ∧ th < 3 ∧ ∃ a l, 0 < seriesLen canon a l ∧ th < (seriesLen canon a l : Int)) →
+      ∃ rows labels, plotCommand store th fuel (ofInputs inputs) = .ok (rows, labels)) := by
+  obtain ⟨decoded, hperm, _, hcmd⟩ := plot_command_is_fold store th inputs fuel hn hfuel hw
+  obtain ⟨p, hp, _, hiff⟩ := aux_plot_and_series canon decoded hc (fun a => (hperm.filter _).trans (hunion a))
+  have hcmd' : plotCommand store th fuel (ofInputs inputs) = Plot.data store p th := by rw [hcmd, hp]
+  rw [hcmd']
+  have hlen : ∀ a l, (specSeries a (t0 (canon a)) (canon a) l).pts.length = seriesLen canon a l := by
+    intro a l; simp [specSeries, specPts, seriesLen]
+  -- some series is refused  ⇔  some (attack, label) count exceeds a non-zero threshold below 3
+  have hany : ((allSeries p).any (fun s => rejects th s.pts.length) = true) ↔
+      (th ≠ 0 ∧ th < 3 ∧ ∃ a l, 0 < seriesLen canon a l ∧ th < (seriesLen canon a l : Int)) := by
+    rw [List.any_eq_true]
+    constructor
+    · rintro ⟨s, hs, hr⟩
+      obtain ⟨a, l, hexr, e⟩ := (hiff s).mp hs
+      unfold rejects at hr
+      simp only [Bool.and_eq_true, decide_eq_true_eq] at hr
+      rw [e, hlen] at hr
+      refine ⟨hr.1.1, hr.2, a, l, ?_, hr.1.2⟩
+      obtain ⟨r, hr1, hr2⟩ := ‹∃ r ∈ canon a, r.label = l›
+      unfold seriesLen
+      apply List.length_pos_of_mem (a := r)
+      rw [List.mem_filter]; exact ⟨hr1, by simp [hr2]⟩
+    · rintro ⟨h0, h3, a, l, hpos, hlt⟩
+      have hex : ∃ r ∈ canon a, r.label = l := by
+        unfold seriesLen at hpos
+        obtain ⟨r, hr⟩ := List.exists_mem_of_length_pos hpos
+        rw [List.mem_filter] at hr
+        exact ⟨r, hr.1, by simpa using hr.2⟩
+      refine ⟨_, (hiff _).mpr ⟨a, l, hex, rfl⟩, ?_⟩
+      unfold rejects
+      simp only [Bool.and_eq_true, decide_eq_true_eq]
+      rw [hlen]
+      exact ⟨⟨h0, hlt⟩, h3⟩
+  by_cases h3 : th < 3
+  · rw [data_outcome_below_3 store p th h3]
+    constructor
+    · constructor
+      · intro h
+        by_cases ha : (allSeries p).any (fun s => rejects th s.pts.length) = true
+        · exact hany.mp ha
+        · rw [if_neg ha] at h; cases h
+      · intro h; rw [if_pos (hany.mpr h)]
+    · intro h
+      rw [if_neg (fun ha => h (hany.mp ha))]
+      exact ⟨_, _, rfl⟩
+  · have hok := data_ok_from_3 store hl p th (Or.inr (by omega)) (by
+      intro s hs
+      obtain ⟨a, l, _, e⟩ := (hiff s).mp hs
+      rw [e]
+      refine ⟨hdom a l, ?_⟩
+      rw [hlen]
+      have h1 : seriesLen canon a l ≤ (canon a).length := List.length_filter_le _ _
+      have := hsize a
+      omega)
+    obtain ⟨rows, labels, hd⟩ := hok
+    constructor
+    · constructor
+      · intro h; rw [hd] at h; cases h
+      · intro h; omega
+    · intro _; exact ⟨rows, labels, hd⟩
+
+/-! ## rows, columns and labels -/
+
+/-- **Sorted and complete, for every plot state** (any number of attacks, any labels, one attack
+with an OK and an ERROR series included): the rows `Plot.data` returns are sorted by x AND are a
+permutation of the rows of all (down-sampled) series points — every point exactly once. -/
+theorem rows_sorted_and_complete (store : Store) (p : Plot) (th : Int) (rows : List (List F64))
+    (labels : List Bytes) (h : Plot.data store p th = .ok (rows, labels)) :
+    rows.Pairwise (fun a b => rowLt b a = false) ∧
+    rows.Perm (seriesRows store th (allSeries p).length 0 (allSeries p)) :=
+  ⟨rows_sorted_by_x store p th rows labels h, (rows_are_the_series_points store p th rows labels h).1⟩
+
+theorem aux_seriesRows_mem (store : Store) (th : Int) (n : Nat) :
+    ∀ (ss : List TimeSeries) (i : Nat) (row : List F64), row ∈ seriesRows store th n i ss →
+      ∃ j s ps pt, ss[j]? = some s ∧ downsample (s.pts.length : Int) th (seriesPoints store s) = .ok ps ∧
+        pt ∈ ps ∧ row = mkRow n (i + j) pt := by
+  intro ss
+  induction ss with
+  | nil => intro i row h; simp [seriesRows] at h
+  | cons s rest ih =>
+    intro i row h
+    unfold seriesRows at h
+    rw [List.mem_append] at h
+    rcases h with h | h
+    · cases hd : downsample (s.pts.length : Int) th (seriesPoints store s) with
+      | ok ps =>
+        rw [hd] at h
+        simp only [List.mem_map] at h
+        obtain ⟨pt, hpt, e⟩ := h
+        exact ⟨0, s, ps, pt, by simp, hd, hpt, by simp [e]⟩
+      | error e => rw [hd] at h; simp at h
+      | panic => rw [hd] at h; simp at h
+    · obtain ⟨j, s', ps, pt, h1, h2, h3, h4⟩ := ih (i+1) row h
+      refine ⟨j+1, s', ps, pt, by simpa using h1, h2, h3, ?_⟩
+      rw [h4]; congr 1; omega
+
+/-- the cells of a row: x first, then the value in column `i+1` and NaN elsewhere -/
+theorem mkRow_cells (n i : Nat) (pt : Point) :
+    (mkRow n i pt)[0]? = some pt.x ∧
+    ∀ j, j < n → (mkRow n i pt)[j+1]? = some (if j = i then pt.y else goNaN) := by
+  unfold mkRow
+  refine ⟨by simp, ?_⟩
+  intro j hj
+  simp only [List.getElem?_cons_succ, List.getElem?_map, List.getElem?_range hj, Option.map_some]
+  by_cases h : j = i <;> simp [h]
+
+/--
+**`labels[i+1]` is the label of the series whose points stand in column `i+1`** — for arbitrary
+byte strings as attack names and labels (names that are prefixes of one another, names containing
+":" or sorting before it, …): the label list is "Seconds" followed by `attack ++ ": " ++ label`
+of the series in exactly the order in which the series were given their columns, and every row is
+the row of a point of some series `i`: its value stands in column `i+1` (all other cells NaN), the
+column labelled with that series' own attack and label.
+-/
+theorem labels_match_columns (store : Store) (p : Plot) (th : Int) (rows : List (List F64))
+    (labels : List Bytes) (h : Plot.data store p th = .ok (rows, labels)) :
+    labels = [83, 101, 99, 111, 110, 100, 115] :: (allSeries p).map (fun s => s.attack ++ [58, 32] ++ s.label) ∧
+    ∀ row ∈ rows, ∃ i s ps pt, (allSeries p)[i]? = some s ∧
+      labels[i+1]? = some (s.attack ++ [58, 32] ++ s.label) ∧
+      downsample (s.pts.length : Int) th (seriesPoints store s) = .ok ps ∧ pt ∈ ps ∧
+      row = mkRow (allSeries p).length i pt ∧
+      row[0]? = some pt.x ∧ row[i+1]? = some pt.y ∧
+      (∀ j, j < (allSeries p).length → j ≠ i → row[j+1]? = some goNaN) := by
+  obtain ⟨hperm, hlab⟩ := rows_are_the_series_points store p th rows labels h
+  have hl : labels = [83, 101, 99, 111, 110, 100, 115] :: (allSeries p).map (fun s => s.attack ++ [58, 32] ++ s.label) := by
+    rw [hlab]; rfl
+  refine ⟨hl, ?_⟩
+  intro row hrow
+  obtain ⟨j, s, ps, pt, h1, h2, h3, h4⟩ :=
+    aux_seriesRows_mem store th _ _ 0 row (hperm.mem_iff.mp hrow)
+  simp only [Nat.zero_add] at h4
+  have hj : j < (allSeries p).length := by
+    rcases Nat.lt_or_ge j (allSeries p).length with h | h
+    · exact h
+    · rw [List.getElem?_eq_none h] at h1; cases h1
+  obtain ⟨c0, cj⟩ := mkRow_cells (allSeries p).length j pt
+  refine ⟨j, s, ps, pt, h1, ?_, h2, h3, h4, ?_, ?_, ?_⟩
+  · rw [hl]; simp [List.getElem?_map, h1]
+  · rw [h4]; exact c0
+  · rw [h4, cj j hj]; simp
+  · intro k hk hne; rw [h4, cj k hk]; simp [hne]
+
+/-! ## x is measured from the attack's first request, whichever result arrives first -/
+
+/--
+**x = ⌊(t − t₀)/1 ms⌋ with t₀ the time stamp of sequence number 0**, for every arrival order — in
+particular when the result with sequence number 0 arrives late or last, and for time stamps with
+sub-millisecond parts: the `k`-th result `r` of attack `a` with label `l` (in sequence order) is
+the `k`-th point of the series, at `x = ⌊(r.ts − r₀.ts)/10^6⌋` ms where `r₀` is the attack's
+result with sequence number 0 (time differences inside the `Duration` range), and
+`y = latency` in ms.
+-/
+theorem x_is_floor_since_seq0 (canon : Bytes → List Result) (rs : List Result)
+    (hc : ∀ a, Canon a (canon a))
+    (hperm : ∀ a, (rs.filter (fun r => r.attack == a)).Perm (canon a))
+    (a l : Bytes) (k : Nat) (r r0 : Result)
+    (hk : ((canon a).filter (fun r => r.label == l))[k]? = some r)
+    (h0 : (canon a)[0]? = some r0) (hrange : r.ts - r0.ts ≤ maxInt64) :
+    r0.seq = 0 ∧
+    ∃ p s x, Plot.addAll [] rs = .ok p ∧ seriesOf p a l = some s ∧
+      s.pts[k]? = some (x, latencyMs r.latency) ∧ (x : Int) = (r.ts - r0.ts) / 1000000 := by
+  have hseq0 : r0.seq = 0 := (hc a).seq 0 r0 h0
+  refine ⟨hseq0, ?_⟩
+  obtain ⟨p, hp, hser⟩ := arrival_order_irrelevant canon rs hc hperm
+  have hmemf : r ∈ (canon a).filter (fun r => r.label == l) := List.mem_of_getElem? hk
+  rw [List.mem_filter] at hmemf
+  have hex : ∃ r' ∈ canon a, r'.label = l := ⟨r, hmemf.1, by simpa using hmemf.2⟩
+  have ht0 : t0 (canon a) = r0.ts := by
+    cases hca : canon a with
+    | nil => rw [hca] at h0; simp at h0
+    | cons c rest => rw [hca] at h0; simp at h0; simp [t0, h0]
+  obtain ⟨i, hi, hie⟩ := List.getElem_of_mem hmemf.1
+  have hget : (canon a)[i]? = some r := by rw [List.getElem?_eq_getElem hi, hie]
+  have hle : r0.ts ≤ r.ts := (hc a).mono 0 i r0 r (Nat.zero_le _) h0 hget
+  refine ⟨p, _, msSince r.ts r0.ts, hp, by rw [hser a l, if_pos hex], ?_, ?_⟩
+  · simp only [specSeries]
+    rw [(one_point_per_result (t0 (canon a)) (canon a) l).2 k r hk, ht0]
+  · exact x_is_whole_milliseconds r0.ts r.ts hle hrange
+
+/-! ## the command line -/
+
+/-- source facts (regenerated every run) binding `plotCmdLine` / `plotCommand` to plot.go: the flags
+`title` (default "Vegeta Plot"), `threshold` (default 4000), `output` (default "stdout"); the call
+`plotRun(files, *threshold, *title, *output)` matching `plotRun`'s parameters
+`(files, threshold, title, output)`; the default input `stdin`; and
+`plot.New(plot.Title(title), plot.Downsample(threshold), plot.Label(plot.ErrorLabeler))`. -/
+theorem facts_plot_command_glue :
+    Vegeta.Extracted.c17PlotFlags = [([34, 116, 105, 116, 108, 101, 34], [34, 86, 101, 103, 101, 116, 97, 32, 80, 108, 111, 116, 34]), ([34, 116, 104, 114, 101, 115, 104, 111, 108, 100, 34], [52, 48, 48, 48]), ([34, 111, 117, 116, 112, 117, 116, 34], [34, 115, 116, 100, 111, 117, 116, 34])] ∧
+    Vegeta.Extracted.c17PlotRunCallArgs = [[102, 105, 108, 101, 115], [42, 116, 104, 114, 101, 115, 104, 111, 108, 100], [42, 116, 105, 116, 108, 101], [42, 111, 117, 116, 112, 117, 116]] ∧
+    Vegeta.Extracted.c17PlotRunParams = [[102, 105, 108, 101, 115], [116, 104, 114, 101, 115, 104, 111, 108, 100], [116, 105, 116, 108, 101], [111, 117, 116, 112, 117, 116]] ∧
+    Vegeta.Extracted.c17PlotDefaultInput = [102, 105, 108, 101, 115, 32, 61, 32, 97, 112, 112, 101, 110, 100, 40, 102, 105, 108, 101, 115, 44, 32, 34, 115, 116, 100, 105, 110, 34, 41] ∧
+    Vegeta.Extracted.c17PlotNewOpts = [[112, 108, 111, 116, 46, 84, 105, 116, 108, 101, 40, 116, 105, 116, 108, 101, 41], [112, 108, 111, 116, 46, 68, 111, 119, 110, 115, 97, 109, 112, 108, 101, 40, 116, 104, 114, 101, 115, 104, 111, 108, 100, 41], [112, 108, 111, 116, 46, 76, 97, 98, 101, 108, 40, 112, 108, 111, 116, 46, 69, 114, 114, 111, 114, 76, 97, 98, 101, 108, 101, 114, 41]] := by decide
+
+/-- the threshold default of the model is the flag's default in the source -/
+theorem facts_default_threshold :
+    (Vegeta.Extracted.c17PlotFlags.lookup [34, 116, 104, 114, 101, 115, 104, 111, 108, 100, 34]) = some [52, 48, 48, 48] ∧ defaultThreshold = 4000 := by decide
+
+open Vegeta.Model.RoundRobin in
+/--
+**`vegeta plot` without `-threshold` down-samples to 4000 points per series**: the command line
+with the flag absent is the command with threshold 4000, so (files holding every attack's records
+completely, store inside its limits) every per-attack OK/ERROR series of more than 4000 results is
+plotted with exactly 4000 points — a sublist with first and last point — and every shorter one
+unchanged; with the flag given, its value is the threshold.
+-/
+theorem plot_cmdline_default_threshold (canon : Bytes → List Result) (inputs : List (List Result)) (fuel : Nat)
+    (hn : 0 < inputs.length) (hfuel : inputs.flatten.length < fuel)
+    (hw : 0 + inputs.length * fuel < two64)
+    (hc : ∀ a, Canon a (canon a))
+    (hunion : ∀ a, (inputs.flatten.filter (fun r => r.attack == a)).Perm (canon a))
+    (store : Store) (hl : Lossless store)
+    (hdom : ∀ a l, msDomain ((specPts (t0 (canon a)) (canon a) l).map (·.1)) = true)
+    (hsize : ∀ a, ((canon a).length : Int) ≤ 1125899906842624) :
+    (∀ th, plotCmdLine store (some th) fuel (ofInputs inputs) = plotCommand store th fuel (ofInputs inputs)) ∧
+    ∃ p rows labels sels, plotCmdLine store none fuel (ofInputs inputs) = .ok (rows, labels) ∧
+      rows.Pairwise (fun a b => rowLt b a = false) ∧
+      SelectedAll 4000 (allSeries p) sels ∧
+      rows.Perm (rowsOfSel (allSeries p).length 0 sels) ∧
+      labels = dataLabels (allSeries p) ∧
+      (∀ s, s ∈ allSeries p ↔
+        ∃ a l, (∃ r ∈ canon a, r.label = l) ∧ s = specSeries a (t0 (canon a)) (canon a) l) :=
+  ⟨fun _ => rfl,
+   plot_files_equal_union canon inputs fuel hn hfuel hw hc hunion store hl hdom hsize 4000 (Or.inr (by decide))⟩
+
+/-! non-vacuity of the new theorems -/
+
+/-- one attack with an OK and an ERROR series overlapping in time: the rows come out interleaved
+by x (not series after series) -/
+def exMixed : List Result :=
+  [⟨exA, 2, 1002000000, 3000000, labelOK⟩, ⟨exA, 0, 1000000000, 1000000, labelOK⟩, ⟨exA, 1, 1001000000, 2000000, labelERROR⟩]
+
+example : (match Plot.addAll [] exMixed with
+    | .ok p => (match Plot.data id p 0 with
+      | .ok (rows, _) => some (rows.map (fun r => r.map (fun f => f == goNaN)))
+      | _ => none)
+    | _ => none) = some [[false, true, false], [false, false, true], [false, true, false]] := by decide +kernel
+
+/-- thresholds 1 and 2: a plot whose series all have at most that many points is not rejected, one
+longer series anywhere rejects it (`exMixed` has 2 OK results and 1 ERROR result) -/
+example : (match Plot.addAll [] exMixed with
+    | .ok p => some ((Plot.data id p 2).isOk, (Plot.data id p 1) = .error eThreshold, (Plot.data id p (-1)) = .error eThreshold)
+    | _ => none) = some (true, true, true) := by decide +kernel
+
+/-- sequence number 0 arrives last and the time stamps have sub-millisecond parts: x is still
+measured from the time stamp of sequence number 0 (1.0000007 s): 0 ms and 1 ms, not 1 ms and 2 ms -/
+example : (match Plot.addAll [] [⟨exB, 1, 1001700500, 5, labelOK⟩, ⟨exB, 2, 1002700600, 5, labelOK⟩, ⟨exB, 0, 1000700700, 5, labelOK⟩] with
+    | .ok p => (seriesOf p exB labelOK).map (fun s => s.pts.map (·.1))
+    | _ => none) = some [0, 0, 1] := by decide +kernel
+
 end Vegeta.Props.C17
